@@ -242,7 +242,8 @@ func evalC20(c *engine.Case) engine.Verdict {
 				break
 			}
 			root := engine.VID(L[0])
-			checkPaths(&v, "TopoShortestPath", g, vs, w, root, engine.SingleSource(n, w, root), dist, edgeTo, true)
+			tref, _ := engine.SingleSource(n, w, root)
+			checkPaths(&v, "TopoShortestPath", g, vs, w, root, tref, dist, edgeTo, true)
 			if v.Fail != "" {
 				break
 			}
@@ -303,6 +304,9 @@ func evalC20(c *engine.Case) engine.Verdict {
 	v.Class("kind-" + gc.Kind)
 	if gc.Hash {
 		v.Class("hashcode-vertices")
+	}
+	if gc.Uncmp {
+		v.Class("non-comparable-vertex-values")
 	}
 	if n > 24 {
 		v.Class("vertices>24")
